@@ -161,7 +161,19 @@ inline bool mpNontrivial(const MValue& m, size_t len) {
   return m.isFloat() || m.kind == MValue::Raw || len > 9;
 }
 
-inline void checkMsgPackDoc(Ctx& C, const MValue& m, const MpOpts& o) {
+// with ARDUINOJSON_USE_DOUBLE=0 a double given to the document is kept as the nearest float: the model follows
+inline MValue configuredModel(const MValue& in) {
+  MValue r = in;
+#if !ARDUINOJSON_USE_DOUBLE
+  if (r.kind == MValue::F64) r = MValue::f32(float(in.d));
+#endif
+  for (auto& e : r.a) e = configuredModel(e);
+  for (auto& kv : r.o) kv.second = configuredModel(kv.second);
+  return r;
+}
+
+inline void checkMsgPackDoc(Ctx& C, const MValue& mGiven, const MpOpts& o) {
+  const MValue m = configuredModel(mGiven);
   std::string key = docKey(m) + (o.sto ? "|sto=signed" : "") + o.tag;
   const std::string kop = key + "|op=msgpack";
   C.begin(kop);
